@@ -1,0 +1,103 @@
+// SPDX-FileCopyrightText: 2026 The Pion community <https://pion.ly>
+// SPDX-License-Identifier: MIT
+
+//go:build verif
+
+package ice
+
+import (
+	"context"
+	"net"
+
+	"github.com/pion/logging"
+	"github.com/pion/transport/v4"
+	"github.com/pion/turn/v5"
+)
+
+// Exports for the external verification harness (/verif), gathering area (C18, C09).
+// Built only with -tags verif.
+
+// VerifIsSupportedIPv6Partial exposes isSupportedIPv6Partial.
+func VerifIsSupportedIPv6Partial(ip net.IP) bool { return isSupportedIPv6Partial(ip) }
+
+// VerifShouldFilterLocationTracked exposes shouldFilterLocationTracked.
+func VerifShouldFilterLocationTracked(ip net.IP) bool { return shouldFilterLocationTracked(ip) }
+
+// VerifIfaceAddr is one row of localInterfaces' address result.
+type VerifIfaceAddr struct {
+	IP    net.IP // netip.Addr.AsSlice(): 4 or 16 bytes
+	Zone  string
+	Iface string
+}
+
+// VerifLocalInterfaces exposes localInterfaces.
+func VerifLocalInterfaces(
+	n transport.Net,
+	interfaceFilter func(string) bool,
+	ipFilter func(net.IP) bool,
+	networkTypes []NetworkType,
+	includeLoopback bool,
+) ([]string, []VerifIfaceAddr, error) {
+	ifcs, addrs, err := localInterfaces(n, interfaceFilter, ipFilter, networkTypes, includeLoopback)
+	names := make([]string, 0, len(ifcs))
+	for _, i := range ifcs {
+		names = append(names, i.Name)
+	}
+	out := make([]VerifIfaceAddr, 0, len(addrs))
+	for _, a := range addrs {
+		out = append(out, VerifIfaceAddr{IP: a.addr.AsSlice(), Zone: a.addr.Zone(), Iface: a.iface})
+	}
+
+	return names, out, err
+}
+
+// VerifListenUDPInPortRange exposes listenUDPInPortRange.
+func VerifListenUDPInPortRange(
+	n transport.Net, portMax, portMin int, network string, lAddr *net.UDPAddr,
+) (transport.UDPConn, error) {
+	return listenUDPInPortRange(n, logging.NewDefaultLoggerFactory().NewLogger("verif"), portMax, portMin, network, lAddr)
+}
+
+// VerifTURNClient is the method set of the agent's TURN client.
+type VerifTURNClient interface {
+	Listen() error
+	Allocate() (net.PacketConn, error)
+	Close()
+}
+
+// VerifWithTURNClientFactory replaces the agent's TURN client factory.
+func VerifWithTURNClientFactory(f func(*turn.ClientConfig) (VerifTURNClient, error)) AgentOption {
+	return func(a *Agent) error {
+		a.turnClientFactory = func(cfg *turn.ClientConfig) (turnClient, error) {
+			c, err := f(cfg)
+			if err != nil {
+				return nil, err
+			}
+
+			return c, nil
+		}
+
+		return nil
+	}
+}
+
+// VerifGatherDone returns the done channel of the gather cycle started last (nil if none).
+func VerifGatherDone(a *Agent) <-chan struct{} {
+	var ch chan struct{}
+	if err := a.loop.Run(a.loop, func(context.Context) { ch = a.gatherCandidateDone }); err != nil {
+		return nil
+	}
+
+	return ch
+}
+
+// VerifAddCandidate exposes addCandidate (the gatherers' publication step) so that the
+// harness can pass a context of its own.
+func VerifAddCandidate(ctx context.Context, a *Agent, cand Candidate, conn net.PacketConn) error {
+	return a.addCandidate(ctx, cand, conn)
+}
+
+// VerifSetConnectionStateFailed drives updateConnectionState(Failed) on the loop.
+func VerifSetConnectionStateFailed(a *Agent) error {
+	return a.loop.Run(a.loop, func(context.Context) { a.updateConnectionState(ConnectionStateFailed) })
+}
